@@ -211,6 +211,8 @@ def run_c11(ctx: fw.Ctx) -> None:
     for _ in range(ctx.n(1500, 20000)):
         cases.append((op_tree_random(r, r.randint(2, 12)), r.choice(BRACKET_OPTS)))
     eval_exp_roundtrip(st2, cases)
+    srcs = [f"x = (a {o1} b) {o2} c; y = a {o1} (b {o2} c); z = {u}(a {o1} b) {o2} {u}c" for o1 in BINOPS_SRC for o2 in BINOPS_SRC for u in ("-", "not ")]
+    t2_format(ctx, [(p, BRACKET_OPTS[i % 8]) for i, p in enumerate(srcs[:: ctx.n(3, 1)])])
     if not ctx.quick:
         st3 = ctx.stream("all binary trees with 3 operators x 8 option sets")
         three = list(c11_trees_three())
@@ -282,6 +284,38 @@ def statement_pair_programs():
     for w in wrappers:
         for s in STAT_FORMS + RETURN_FORMS:
             yield w.replace("{}", s)
+
+
+def lua_quote(v: str) -> str:
+    out = ['"']
+    for ch in v:
+        o = ord(ch)
+        if ch in '"\\':
+            out.append("\\" + ch)
+        elif 32 <= o < 127:
+            out.append(ch)
+        elif o < 128:
+            out.append("\\%03d" % o)
+        else:
+            out.append("\\u{%x}" % o)
+    out.append('"')
+    return "".join(out)
+
+
+def literal_stress_programs():
+    """string values that tempt the writer into a long bracket or a wrapped literal, in three positions"""
+    items = [" ", "\t", "a", "]", "]]", "]=]", "=", '"', "'", "\\", "é", "\x0b", "\x0c", "\r", "\x00", "\x7f", "[[", "--", "\n"]
+    bases = ["\n" * 5, "l1\nl2\nl3\nl4\nl5\nl6", "\n\n", "word " * 30, "x" * 130]
+    for b in bases:
+        cut = [0, 1, len(b) // 2, len(b) - 1, len(b)]
+        if "\n" in b:
+            cut += [b.index("\n"), b.index("\n") + 1]
+        for it in items:
+            for c in sorted(set(cut)):
+                v = b[:c] + it + b[c:]
+                q = lua_quote(v)
+                yield f"x = {q}"
+                yield f"do do f({q}, t[{q}]) end end"
 
 
 def corpus_files() -> list[tuple[str, str]]:
@@ -413,6 +447,10 @@ def program_streams(ctx: fw.Ctx, styles: list, *, check_tree: bool, check_format
         else:
             st.exhaustive = True
         eval_programs(ctx, st, progs, styles, check_tree=check_tree, check_format=check_format, fixpoint=fixpoint)
+    if check_format:
+        st = ctx.stream("G2 literal stress: values around the long-bracket and wrapping decisions")
+        eval_programs(ctx, st, list(literal_stress_programs()), styles, check_tree=check_tree, check_format=True, fixpoint=fixpoint)
+        st.exhaustive = True
     st = ctx.stream("G7 corpus (lua-tests, test_files) without known-finding features")
     files = corpus_files()
     feats = drive([("features", hx(s)) for _, s in files])
@@ -475,14 +513,26 @@ def pairwise_styles(r: random.Random) -> list[dict]:
     return out
 
 
+def t2_programs(ctx: fw.Ctx, n_quick: int, n_thorough: int) -> list[str]:
+    r = ctx.rng("t2progs")
+    progs = random_programs(ctx, "t2g1", ctx.n(n_quick, n_thorough))
+    pairs = list(statement_pair_programs())
+    lits = list(literal_stress_programs())
+    progs += r.sample(pairs, ctx.n(120, len(pairs))) + r.sample(lits, ctx.n(80, len(lits)))
+    progs += [src for k in ("K1", "K2", "K3") for src in K_WITNESSES[k]]
+    return progs
+
+
 def run_c01(ctx: fw.Ctx) -> None:
     program_streams(ctx, DEFAULT_STYLES, check_tree=False, check_format=True, adjacency=0.05 if ctx.quick else 1.0)
     run_witnesses(ctx, ["K1", "K2", "K3"], DEFAULT_STYLES)
+    t2_format(ctx, [(p, None) for p in t2_programs(ctx, 250, 5000)])
 
 
 def run_c02(ctx: fw.Ctx) -> None:
     program_streams(ctx, MIN_STYLES, check_tree=False, check_format=True, adjacency=0.25 if ctx.quick else 1.0)
     run_witnesses(ctx, ["K1", "K2", "K3"], MIN_STYLES)
+    t2_format(ctx, [(p, "min") for p in t2_programs(ctx, 250, 5000)])
 
 
 def run_c03(ctx: fw.Ctx) -> None:
@@ -502,6 +552,7 @@ def run_c03(ctx: fw.Ctx) -> None:
     eval_programs(ctx, st, progs, [], check_tree=True, check_format=False)
     st.exhaustive = True
     run_witnesses(ctx, ["K1", "K2"], [], check_tree=True, check_format=False)
+    t2_parse(ctx, t2_programs(ctx, 400, 8000) + progs[:: ctx.n(5, 1)])
 
 
 def run_c08(ctx: fw.Ctx) -> None:
@@ -530,11 +581,14 @@ def run_c08(ctx: fw.Ctx) -> None:
     for p in progs3:
         eval_programs(ctx, st3, [p], [style_space(r) for _ in range(2)], check_tree=False, check_format=True)
     run_witnesses(ctx, ["K1", "K2", "K3"], [style_space(r)])
+    t2p = t2_programs(ctx, 150, 3000)
+    t2_format(ctx, [(p, styles[i % len(styles)]) for i, p in enumerate(t2p)] + [(p, style_space(r)) for p in t2p])
 
 
 def run_c15(ctx: fw.Ctx) -> None:
     program_streams(ctx, MIN_STYLES, check_tree=False, check_format=True, fixpoint=True,
                     adjacency=0.1 if ctx.quick else 1.0)
+    t2_format(ctx, [(p, "min") for p in t2_programs(ctx, 200, 4000)])
 
 
 PROG_RULE = ("programs: random derivations of the manual's grammar rendered with random layout and comments (validated by the Lean Spec), "
@@ -553,8 +607,8 @@ for pid, runner, extra in [
         run=runner,
         modules=["Tumfl.Props.C11"],
         obligations=["Tumfl.Props.C11_roundtrip", "Tumfl.Inst.brackets_sound_all"],
-        extractors=["Brackets"],
-        tie_names=["T1:Brackets"],
+        extractors=["Brackets", "FmtTables", "LexTables", "Ladder"],
+        tie_names=["T1:Brackets", "T1:FmtTables", "T1:LexTables", "T1:Ladder"] + (["T2:parse"] if pid == "C03" else ["T2:format"]),
         rule=PROG_RULE + "; " + extra,
         classify=classify_k,
         partial_hypotheses=["only the operator-bracketing core is proved so far; the remaining composition (lexer, statement parser, emit, layout) is covered by the oracle streams"],
@@ -775,7 +829,9 @@ def run_c05(ctx: fw.Ctx) -> None:
     st4.exhaustive = not ctx.quick
     st5 = ctx.stream("random literals from the program generator")
     g = gen.ProgGen(r, gen.Cfg())
-    eval_lex(st5, [g.string().text for _ in range(ctx.n(2000, 40000))], positions=False)
+    rl = [g.string().text for _ in range(ctx.n(2000, 40000))]
+    eval_lex(st5, rl, positions=False)
+    t2_lex(ctx, lits + lb + c05_comments() + rl[:: 2])
 
 
 register(
@@ -901,6 +957,13 @@ def run_c06(ctx: fw.Ctx) -> None:
         name, ch = r.choice(string_contexts(v))
         cases.append(({"value": v, "context": name}, ch, r.choice(styles)))
     eval_ast_roundtrip(st3, cases)
+    t2c = []
+    for v in r.sample(values, ctx.n(400, 5000)) + [c[0]["value"] for c in cases[: ctx.n(100, 1000)]]:
+        if "\r" in v or any(0xD800 <= ord(ch) <= 0xDFFF for ch in v):
+            continue
+        q = lua_quote(v)
+        t2c.append((f"x = {q} .. y; f({q}); t[{q}] = {{[{q}] = 1}}; return ({q}):rep(2)", r.choice(styles)))
+    t2_format(ctx, t2c)
     if not ctx.quick:
         st4 = ctx.stream("all strings of length 5 over a reduced alphabet x default/minified")
         red = ["a", " ", "\n", "\"", "\\", "]", "=", "é"]
@@ -1015,6 +1078,9 @@ def run_c07(ctx: fw.Ctx) -> None:
     progs = [c for n in b + rnd for c in numeral_contexts(n) if not (n.lower().startswith("0x.") )]
     eval_programs(ctx, st2, progs, [None, "min"], check_tree=True, check_format=True)
     run_witnesses(ctx, ["K2", "K3"], [None, "min"])
+    t2n = [f"x = {n} .. {n}, {{{n}}}" for n in r.sample(nums, ctx.n(500, len(nums))) + b + ["5.", "0x.8", "0x5.", "1.e2"]]
+    t2_format(ctx, [(p, sd) for p in t2n for sd in (None, "min")])
+    t2_lex(ctx, [f"{n}" for n in nums[:: ctx.n(3, 1)]] + ["0x", "1e", "1e+", "3f", "1..2", "0x.p1", "1.", ".e1", "0xep", "0Xa.P-", "1e5e3"])
 
 
 register(
@@ -1098,6 +1164,8 @@ def run_c16(ctx: fw.Ctx) -> None:
             items.append((m, e, case))
     check_error_tokens(st3, items)
     st3.notes["parser_errors"] = len(items)
+    t2_lex(ctx, progs[: ctx.n(300, 5000)] + [m for m, _, _ in items])
+    t2_parse(ctx, [m for m, _, _ in items])
 
 
 def run_c20(ctx: fw.Ctx) -> None:
@@ -1126,6 +1194,7 @@ def run_c20(ctx: fw.Ctx) -> None:
     files = [s for _, s in corpus_files() if "\r" not in s and (not ctx.quick or len(s) < 60000)]
     feats = drive([("features", hx(s)) for s in files])
     eval_lex(st3, [s for s, ft in zip(files, feats) if "k2=false k3=false bytes=false" in ft], positions=False)
+    t2_lex(ctx, progs[: ctx.n(300, 5000)] + cases[:: ctx.n(3, 1)])
 
 
 for pid, runner, rule in [
@@ -1163,7 +1232,9 @@ def marker_statements(k: int) -> list[tuple[str, str]]:
     return [(m, f"{m} = 1"), (m, f"{m}()"), (m, f"{m}:go(1)"), (m, f"{m}.f.g = 2"), (m, f"local {m}"), (m, f"local {m} <const> = 1"),
             (m, f"while {m} do end"), (m, f"repeat until {m}"), (m, f"if {m} then elseif y then else end"), (m, f"for {m} = 1, 2 do end"),
             (m, f"for {m}, v in p do end"), (m, f"function {m}.a:b() end"), (m, f"local function {m}() end"), (m, f"goto {m}"),
-            (m, f"::{m}::"), (m, f"do {m}() end"), (m, f"{m}'s'"), (m, f"{m}{{}}"), (m, f"({m})()"), (m, f"({m}).x = 1")]
+            (m, f"::{m}::"), (m, f"do {m}() end"), (m, f"{m}'s'"), (m, f"{m}{{}}"), (m, f"({m})()"), (m, f"({m}).x = 1"),
+            # statements without a name of their own: only text, count and order of their comments can be checked
+            (None, ";"), (None, "; ;"), (None, "do end"), (None, "do ; end")]
 
 
 def c13_case(r: random.Random, nstat: int, nest: int):
@@ -1180,6 +1251,8 @@ def c13_case(r: random.Random, nstat: int, nest: int):
             will_wrap = depth > 0 and r.random() < 0.4
             if (out or will_wrap) and s.startswith("("):
                 s = f"{m}()"
+            if m is None and r.random() < 0.7:
+                m, s = forms[0]
             if will_wrap:
                 inner = stmts(r.randint(1, 2), depth - 1)
                 k2 = next(counter)
@@ -1231,6 +1304,9 @@ def run_c13(ctx: fw.Ctx) -> None:
                 continue
             sp = comment_spellings(r, text)
             cases.append((f"z0 = 0\n{sp}{s}" if not s.startswith("(") else f"z0 = 0;\n{sp}{s}", [(text.strip(LUA_WS), m)]))
+            if s.startswith("("):
+                # the comment sits on the `;` that Lua needs in front of a statement starting with `(`
+                cases.append((f"z0 = 0\n{sp};{s}", [(text.strip(LUA_WS), None)]))
     refs = refparse([c[0] for c in cases])
     outs, outs_off = [], []
     NoComments = mkstyle(dict(INCLUDE_COMMENTS=False))
@@ -1265,7 +1341,7 @@ def run_c13(ctx: fw.Ctx) -> None:
         exp = [tuple(e) for e in case["expected"]]
         if [g[0] for g in got] != [e[0] for e in exp]:
             st.fail("leading comments do not appear exactly once, in order, with the same text", dict(case, output=out, got=got))
-        elif got != exp:
+        elif any(e[1] is not None and g[1] != e[1] for g, e in zip(got, exp)):
             st.fail("a comment is not placed before its statement", dict(case, output=out, got=got))
     answers = drive([("reflex", hx(o)) for _, o in outs_off])
     for (case, out), ans in zip(outs_off, answers):
@@ -1275,6 +1351,9 @@ def run_c13(ctx: fw.Ctx) -> None:
         got = [g for g in out_comments(ans) if g[0] != "tumfl"]
         if got:
             st_off.fail("a source comment appears although comments are switched off", dict(case, output=out, got=got))
+    t2_format(ctx, [(c[0], None) for c in cases[:: ctx.n(4, 1)]] + [(c[0], dict(INCLUDE_COMMENTS=False, COMMENT_SEP="")) for c in cases[:: ctx.n(9, 2)]]
+              + [(c[0], dict(COMMENT_SEP="", STATEMENT_SEPARATOR=";")) for c in cases[:: ctx.n(9, 2)]])
+    t2_parse(ctx, [c[0] for c in cases[:: ctx.n(4, 1)]])
 
 
 register(
@@ -1325,7 +1404,8 @@ def token_mutations(toks: list[str], r: random.Random, budget: int | None) -> li
 
 
 def char_soup(r: random.Random, n: int) -> list[str]:
-    alpha = list("abxe_01.9 \n\t()[]{}=<>~+-*/%^#&|,;:'\"\\") + ["--", "[[", "]]", "[=[", "..", "...", "::", "and ", "end ", "function ", "local ",
+    alpha = list("abxe_01.9 \n\t\r()[]{}=<>~+-*/%^#&|,;:'\"\\") + ["--", "[[", "]]", "[=[", "..", "...", "::", "and ", "end ", "function ", "local ",
+                                                                   "\r\n", "\\u{7FFFFFFF}", "\\u{80000000}", "\\u{FFFFFFFF}", "\\u{110000}", "\\xff", "\\255", "\\256",
                                                                    "return ", "if ", "then ", "do ", "0x", "1e", "\\u{", "\\x", "\\z", " ", "é", "\x00"]
     return ["".join(r.choice(alpha) for _ in range(r.randint(1, 40))) for _ in range(n)]
 
@@ -1395,6 +1475,20 @@ def run_c09(ctx: fw.Ctx) -> None:
             "local x <const> = 1", "t[1].y = f{...}", "::l:: goto l", "function a.b:c(...) end", "x = 'é中😀'"]
     eval_total(st4, [p + tail for l in lits for p in [l[:i] for i in range(len(l) + 1)] for tail in ("", " ", "\n", " y", "\n=1")])
     st4.exhaustive = True
+    st5 = ctx.stream("quoted literals over the escape alphabet (all sequences up to 2 items), alone and inside a statement")
+    lits2 = c05_literals(2)
+    eval_total(st5, lits2 + ["x = " + l + " .. y" for l in lits2[:: ctx.n(7, 1)]])
+    st5.exhaustive = True
+    st6 = ctx.stream("texts with carriage returns (lone CR, CRLF) in place of line feeds, then damaged")
+    crs = []
+    for p in seeds[: ctx.n(40, 300)]:
+        q = p.replace("\n", r.choice(["\r", "\r\n", "\n\r"]), r.randint(1, 3))
+        crs.append(q)
+        crs.append(mutate_text(r, q))
+        crs.append(q[: r.randrange(len(q) + 1)])
+    crs += ["a = 1\rb = = 2", "a = 1\r!", "x = 'a\rb'", "--[[\r]]\r\r!", "x = [[\r\n]] )", "\r", "\r\r(", "x\r=\r1\r)"]
+    eval_total(st6, crs)
+    t2_parse(ctx, prefixes_of(seeds[: ctx.n(8, 60)]) + malformed_inputs(ctx, "c09t2", 4, 40, 200) + char_soup(r, ctx.n(800, 10000)) + crs)
 
 
 def run_c10(ctx: fw.Ctx) -> None:
@@ -1415,6 +1509,7 @@ def run_c10(ctx: fw.Ctx) -> None:
             dbl += token_mutations(toks, r, 8)
         eval_accept(st_d, dbl)
     eval_accept(st, srcs)
+    t2_parse(ctx, srcs[:: ctx.n(4, 1)])
 
 
 def eval_accept(st: fw.Stream, srcs: list[str]) -> None:
@@ -1479,6 +1574,7 @@ def run_c19(ctx: fw.Ctx) -> None:
         elif pos and pos[-1] > (e.token.line, e.token.column):
             st2.fail("a hint lies after the offending token", dict(case, hints=[str(h) for h in e.hints], token=(e.token.line, e.token.column)))
     st2.notes["distinct_hint_kinds_seen"] = len(sites)
+    t2_parse(ctx, progs[: ctx.n(150, 3000)] + srcs[:: ctx.n(5, 1)])
 
 
 for pid, runner, rule in [
@@ -1810,10 +1906,11 @@ def make_file_tree_raw(r: random.Random, faults: bool, cycle: int = 0, k4: bool 
             for _ in range(r.randint(0, 3)):
                 m = r.choice(allowed)
                 k = next(counter)
-                if m in expr_only:
+                # the same module may be required at expression level and at statement level (any order across statements)
+                if m in expr_only and r.random() < 0.5:
                     tmpl = r.choice([t for t in REQ_POSITIONS if "{E}" in t])
                 else:
-                    tmpl = r.choice([t for t in REQ_POSITIONS if "{R}" in t])
+                    tmpl = r.choice(REQ_POSITIONS)
                 call = r.choice(['require("%s")', "require '%s'", 'require "%s"', "require[[%s]]"]) % m
                 lines.append(tmpl.replace("{E}", call).replace("{R2}", call).replace("{R}", call).replace("{k}", str(k)))
         lines.append(f"tail_{next(counter)}()")
@@ -1824,8 +1921,9 @@ def make_file_tree_raw(r: random.Random, faults: bool, cycle: int = 0, k4: bool 
     trap_dirs = [d for d in trap_dirs if d not in files and not any(f.startswith(d + "/") for f in files)]
     for p in list(files):
         files[p] = body(p, 1 if (cycle or r.random() < 0.6) else 0, files[p])
-    files["main.lua"] = body("main.lua", 2) + "".join(f"require('{m}')\n" for m in mods if m not in expr_only and r.random() < 0.6) + \
-        "".join(f"last_{i} = require('{m}')\n" for i, m in enumerate(mods) if m in expr_only and r.random() < 0.6) + \
+    trailer = [f"require('{m}')\n" for m in mods if r.random() < 0.5] + [f"last_{i} = require('{m}')\n" for i, m in enumerate(mods) if r.random() < 0.5]
+    r.shuffle(trailer)
+    files["main.lua"] = body("main.lua", 2) + "".join(trailer) + \
         "x:require('nope')\nt.require('nope')\nrequirex('nope')\nlocal r = require\n"
     return {"files": files, "dirs": sorted(set(trap_dirs)), "main": "main.lua", "search": search}
 
@@ -2431,3 +2529,106 @@ def t2_parse(ctx: fw.Ctx, srcs: list[str], name: str = "T2:parse") -> None:
             continue
         if ans != mine:
             ctx.tie_broken(name, {"source": src[:500], "model": ans[:800], "tumfl": mine[:800]})
+
+
+# =========================================================================== T2 correspondence: model formatter vs tumfl formatter
+import tumfl.formatter as FM
+
+_SEPNAME = {FM.Separators.Statement: "stmt", FM.Separators.Newline: "newline", FM.Separators.Argument: "arg", FM.Separators.Space: "space",
+            FM.Separators.Dot: "dot", FM.Separators.Indent: "indent", FM.Separators.DeIndent: "deindent", FM.Separators.Block: "block"}
+
+
+def show_pieces(ps) -> str:
+    return " ".join(("S" + hx(p)) if isinstance(p, str) else _SEPNAME[p] for p in ps)
+
+
+def style_args(sty) -> list[str]:
+    d = style_dict(sty)
+    out = []
+    for k in STYLE_FIELDS:
+        v = d[k]
+        if isinstance(v, bool):
+            out.append("1" if v else "0")
+        elif isinstance(v, int):
+            out.append(str(v))
+        else:
+            out.append(hx(v))
+    return out
+
+
+def py_format_stages(src: str, sty) -> str:
+    """every stage of tumfl.format on the real code, in the format of Driver.formatStages"""
+    with quiet():
+        try:
+            ast = tumfl.parse(src)
+        except LexerError as e:
+            return f"err lexer {e.line} {e.column}"
+        except ParserError as e:
+            return f"err parser {e.token.type.name} {e.token.line} {e.token.column} {modeldump.hints(e.hints)}"
+        except Exception as e:  # noqa: BLE001
+            return f"err py {type(e).__name__}"
+        priv = FM.__dict__
+        out = []
+
+        def stage(name, fn):
+            try:
+                fn()
+                out.append(f"{name}={show_pieces(ts)}")
+                return True
+            except Exception as e:  # noqa: BLE001
+                out.append(f"{name}=ERR py {type(e).__name__}")
+                return False
+
+        ts = FM.Formatter(sty).visit(ast)
+        out.append(f"emit={show_pieces(ts)}")
+        ok = stage("remove", lambda: FM.remove_separators(ts) if sty.REMOVE_UNNECESSARY_CHARS else None)
+        ok = ok and stage("brackets", lambda: FM.indent_brackets(ts, sty) if sty.LINE_WIDTH > 0 else None)
+        ok = ok and stage("spacing", lambda: FM.add_spacing(ts, sty) if sty.BLOCK_SPACER > 0 else None)
+        if ok:
+            ts[0:0] = [f"--{sty.COMMENT_SEP}tumfl", FM.Separators.Newline]
+            priv["__remove_orphaned_tokens"](ts)
+            out.append(f"orphans={show_pieces(ts)}")
+            ok = stage("resolve", lambda: FM.resolve_tokens(ts, sty))
+            ok = ok and stage("indent", lambda: FM.indent(ts, sty.INDENTATION))
+            if ok:
+                try:
+                    out.append("text=" + hx(with_watchdog(5, tumfl.format, tumfl.parse(src), sty)))
+                except Exception as e:  # noqa: BLE001
+                    out.append(f"text=ERR py {type(e).__name__}")
+        return "ok " + " | ".join(out)
+
+
+def t2_format(ctx: fw.Ctx, cases: list[tuple[str, Any]], name: str = "T2:format") -> None:
+    """Correspondence: the Lean model of Formatter.visit and of every layout pass against the real code, stage by stage."""
+    st = next((s for s in ctx.streams if s.name == name + " correspondence"), None) or ctx.stream(name + " correspondence")
+    cases = [(s, sd) for s, sd in cases if not has_surrogate_escape(s)]
+    stys = [FormattingStyle if sd is None else (MinifiedStyle if sd == "min" else mkstyle(sd)) for _, sd in cases]
+    answers = drive([("mformat", hx(s), *style_args(sty)) for (s, _), sty in zip(cases, stys)])
+    for (src, sd), sty, ans in zip(cases, stys, answers):
+        st.record({"kind": "t2-format", "source": src[:200], "style": sd}, key=src + json.dumps(sd, sort_keys=True, default=str))
+        try:
+            mine = with_watchdog(8, py_format_stages, src, sty)
+        except Timeout:
+            mine = "timeout"
+        if ans.startswith("err py") and mine.startswith("err py"):
+            continue
+        if ans != mine:
+            a, b = ans.split(" | "), mine.split(" | ")
+            first = next((i for i in range(min(len(a), len(b))) if a[i] != b[i]), min(len(a), len(b)))
+            ctx.tie_broken(name, {"source": src[:500], "style": sd, "first_difference_at_stage": (a[first] if first < len(a) else "")[:40],
+                                  "model": " | ".join(a[first:first + 1])[:700], "tumfl": " | ".join(b[first:first + 1])[:700]})
+
+
+# =========================================================================== Lean obligations per property (overrides the placeholders above)
+ALL_T1 = ["Brackets", "FmtTables", "LexTables", "Ladder"]
+LEAN_OBLIGATIONS: dict[str, dict] = {
+    "C06": dict(
+        modules=["Tumfl.Props.C06"],
+        obligations=["Tumfl.Props.C06_quoted", "Tumfl.Props.C06_long", "Tumfl.Props.C06_forms", "Tumfl.Inst.escTable_ok"],
+        extractors=["FmtTables", "Brackets"],
+        tie_names=["T1:FmtTables (ESCAPE_CHARACTERS re-extracted; EscTableOK re-decided)", "T2:format (visit_String and every layout pass, stage by stage)"],
+        partial_hypotheses=["the `\\z` line wrapping of _string_ident is modelled and T2-tied but has no theorem: wrapped literals are covered by the oracle streams only"],
+    ),
+}
+for _pid, _ov in LEAN_OBLIGATIONS.items():
+    REGISTRY[_pid].update(_ov)
